@@ -9,8 +9,8 @@ def py_targets(prop):
                   if prop in c.props and not c.trusted and not c.inline)
 
 
-def run_pyvc(ctx, prop, mode="normal"):
-    t = py_targets(prop)
+def run_pyvc(ctx, prop, mode="normal", skip=None):
+    t = [x for x in py_targets(prop) if not (skip and skip(x))]
     if t:
         res = ctx.pyvc(t, mode=mode)
         from lib import replay
